@@ -21,9 +21,8 @@ static void cfg_fields(vh::Out &o, const Call &c, int S, int nth)
     o.str("dst", c.dst);
     o.str("buf", c.buf);
     o.num("nth", nth);
+    o.num("xv", c.xv);
 }
-
-static std::map<int, std::vector<uint64_t>> Krows;
 
 static Call parse_call(const std::vector<std::string> &t, size_t i)
 {
@@ -36,6 +35,7 @@ static Call parse_call(const std::vector<std::string> &t, size_t i)
     c.nblock = vh::parse_u64(t[i + 6]);
     c.dst = t[i + 7];
     c.buf = t[i + 8];
+    c.xv = t.size() > i + 10 ? atoi(t[i + 10].c_str()) : 0;
     return c;
 }
 static uint64_t bigval(uint64_t v) { return v == 1000000 ? 0xFFFFFFFFFFFFFFF0ULL : v; }
@@ -65,6 +65,7 @@ static void do_case(vh::Out &o, const std::vector<std::string> &t)
             c.nblock = bigval(vh::parse_u64(f[5]));
             c.dst = f[6];
             c.buf = f[7];
+            c.xv = f.size() > 8 ? atoi(f[8].c_str()) : 0;
             Result rs = run_call(shared, c);
             NTT_Goldilocks fresh(1ULL << S, nth);
             Result rf = run_call(fresh, c);
@@ -141,39 +142,27 @@ int main(int argc, char **argv)
         fprintf(stderr, "usage: drv_ntt inputs cases out.ndjson\n");
         return 2;
     }
-    for (auto &t : vh::read_cases(argv[1]))
-    {
-        if (t[0] == "X")
-        {
-            int d = atoi(t[1].c_str());
-            for (size_t i = 2; i < t.size(); i++)
-                X[d].push_back(vh::parse_u64(t[i]));
-        }
-        else if (t[0] == "M")
-            for (size_t i = 2; i < t.size(); i++)
-                Mc.push_back(vh::parse_u64(t[i]));
-        else if (t[0] == "K")
-            for (size_t i = 2; i < t.size(); i++)
-                Krows[atoi(t[1].c_str())].push_back(vh::parse_u64(t[i]));
-    }
+    load_inputs(argv[1]);
     auto cases = vh::read_cases(argv[2]);
     {
         // log the input matrices the calls will use: one "input" event per size, all column multipliers
         vh::Out o(argv[3]);
         for (auto &kv : X)
-        {
-            uint64_t n = kv.second.size();
-            std::vector<uint64_t> cells;
-            for (uint64_t j = 0; j < n; j++)
-                for (uint64_t c = 0; c < Mc.size(); c++)
-                    cells.push_back(cell(kv.first, j, c));
-            o.begin("input");
-            o.num("ci", 0);
-            o.num("d", kv.first);
-            o.num("ncols", Mc.size());
-            o.w64arr("cells", cells.data(), cells.size());
-            o.end();
-        }
+            for (size_t v = 0; v < kv.second.size(); v++)
+            {
+                uint64_t n = kv.second[v].size();
+                std::vector<uint64_t> cells;
+                for (uint64_t j = 0; j < n; j++)
+                    for (uint64_t c = 0; c < Mc.size(); c++)
+                        cells.push_back(cell(kv.first, (int)v, j, c));
+                o.begin("input");
+                o.num("ci", 0);
+                o.num("d", kv.first);
+                o.num("xv", (long long)v);
+                o.num("ncols", Mc.size());
+                o.w64arr("cells", cells.data(), cells.size());
+                o.end();
+            }
     }
     size_t i = 0;
     while (i < cases.size())
